@@ -15,8 +15,13 @@ structure Shape where
   ptr : Bool
   recv : Recv
   base : String        -- reflect name of the struct type, e.g. "main.NPlain"
-  custom : String      -- what EventTypeName returns
+  custom : String      -- what EventTypeName returns on the published value
+  customZero : String  -- what EventTypeName returns on the zero value of the type (the same, unless the
+                       -- method reads the event's fields)
 deriving DecidableEq, Repr
+
+/-- the name does not depend on the event's value -/
+def Shape.constName (s : Shape) : Bool := s.custom == s.customZero
 
 /-- is `EventTypeName` in the method set of the event type? -/
 def inMethodSet (s : Shape) : Bool :=
@@ -33,7 +38,7 @@ def eventType (s : Shape) : String := if inMethodSet s then s.custom else reflec
 
 /-- `typeNameOf(reflect.Type)`: `t.Implements(TypeNamer)` on the static type, the method called
 on a zero value (or on a fresh non-nil pointer for pointer types) -/
-def typeNameOf (s : Shape) : String := if inMethodSet s then s.custom else reflectName s
+def typeNameOf (s : Shape) : String := if inMethodSet s then s.customZero else reflectName s
 
 inductive Route
   | eventTypeFn      -- EventType(event)
@@ -41,6 +46,7 @@ inductive Route
   | replaySub        -- the name SubscribeWithReplay[T] compares stored types with
   | upcastFrom       -- the source name RegisterUpcast[T, _] registers
   | upcastTo         -- the target name RegisterUpcast[_, T] registers and returns
+  | storedAfterReplay -- StoredEvent.Type of the same record after a ReplayWithUpcast went over it
 deriving DecidableEq, Repr
 
 def routeName (r : Route) (s : Shape) : String :=
@@ -50,13 +56,19 @@ def routeName (r : Route) (s : Shape) : String :=
   | .replaySub => typeNameOf s
   | .upcastFrom => typeNameOf s
   | .upcastTo => typeNameOf s
+  | .storedAfterReplay => eventType s  -- replaying (with or without upcasters) never rewrites the log
 
 /-- the shapes the harness instantiates as real Go types -/
 def shapes : List Shape :=
-  [ ⟨false, .none, "main.NPlain", ""⟩, ⟨true, .none, "main.NPlain", ""⟩,
-    ⟨false, .value, "main.NVal", "nval.v1"⟩, ⟨true, .value, "main.NVal", "nval.v1"⟩,
-    ⟨false, .pointer, "main.NPtr", "nptr.v1"⟩, ⟨true, .pointer, "main.NPtr", "nptr.v1"⟩,
-    ⟨false, .value, "state.ChangeMessage", "state.ChangeMessage"⟩, ⟨true, .value, "state.ChangeMessage", "state.ChangeMessage"⟩,
-    ⟨false, .value, "state.ControlMessage", "state.ControlMessage"⟩, ⟨true, .value, "state.ControlMessage", "state.ControlMessage"⟩ ]
+  [ ⟨false, .none, "main.NPlain", "", ""⟩, ⟨true, .none, "main.NPlain", "", ""⟩,
+    ⟨false, .value, "main.NVal", "nval.v1", "nval.v1"⟩, ⟨true, .value, "main.NVal", "nval.v1", "nval.v1"⟩,
+    ⟨false, .pointer, "main.NPtr", "nptr.v1", "nptr.v1"⟩, ⟨true, .pointer, "main.NPtr", "nptr.v1", "nptr.v1"⟩,
+    ⟨false, .value, "state.ChangeMessage", "state.ChangeMessage", "state.ChangeMessage"⟩,
+    ⟨true, .value, "state.ChangeMessage", "state.ChangeMessage", "state.ChangeMessage"⟩,
+    ⟨false, .value, "state.ControlMessage", "state.ControlMessage", "state.ControlMessage"⟩,
+    ⟨true, .value, "state.ControlMessage", "state.ControlMessage", "state.ControlMessage"⟩,
+    -- names computed from the event's fields (the harness publishes A = 7)
+    ⟨false, .value, "main.NDyn", "ndyn.v7", "ndyn.v0"⟩, ⟨true, .value, "main.NDyn", "ndyn.v7", "ndyn.v0"⟩,
+    ⟨false, .pointer, "main.NDynP", "ndynp.v7", "ndynp.v0"⟩, ⟨true, .pointer, "main.NDynP", "ndynp.v7", "ndynp.v0"⟩ ]
 
 end Ebu.TypeName
